@@ -107,9 +107,12 @@ def main():
         for o in flat:
             if not o[1]: rep.add_violation(name, o[0].replace(" ", "_")[:160], o[0] + ": " + o[2], trace=o[2])
         rep.samples += [o[0] for o in flat[:2]]
+    import penalty_matrix
+    penalty_matrix.add(rep, thorough, monotonic=True, name="C10-penalty-matrix")
     rep.assume("PARTIAL (structural half of C10): NOT decided - that nnls_normal_block3 returns non-negative increments and the constrained optimum (cholmod numerics, F/G/H bookkeeping), and the second clause of C10 (inactive constraint => same coefficients as the unconstrained fit)",
                "given non-negative, non-NaN increments the running sums are non-decreasing also in float arithmetic (round-to-nearest addition of a non-negative number never decreases a value): a standard IEEE fact, not re-proved here",
-               "the penalty-side T-spline conversion is an obligation of the C09 check (calc_penalty mono=1); the non-negativity of every reported trial solution is an obligation of the C12 worker harness",
+               "second clause (inactive constraint => same coefficients): its necessary condition 'the monotonic fit minimises the same objective, written in T-spline coordinates' is decided exactly for the penalty: assembled matrix == (I x L x I)' P (I x L x I); the data term (basis x L inside glamfit_complex) is not checked",
+               "the penalty-side T-spline conversion is also an obligation of the C09 check (calc_penalty mono=1); the non-negativity of every reported trial solution is an obligation of the C12 worker harness",
                "the basis-side conversion inside glamfit_complex (basis x tril) is not checked (cholmod calls)")
     rep.trust("tools/gotoexec.py", "goto-cc front end", "tools/extract.py")
     rep.finish(None)
